@@ -32,7 +32,8 @@ LEVEL_NOTE = ("virtual time; driver calls are placed at instants that never coin
 RULE = ("cases = (run scripts, limit, delay, driver script); distinct = canonical JSON; non-trivial = >=2 runs entered or "
         "an external call during a run / during the restart delay")
 REQUIRED_BUCKETS = ["outcome:ret", "outcome:exc", "outcome:base", "outcome:block", "restart-observed",
-                    "limit-exhausted", "limit:0", "limit:None", "delay:0", "delay:2", "delay:fractional", "stop-during-run",
+                    "limit-exhausted", "limit:0", "limit:None", "delay:0", "delay:2", "delay:fractional", "helper:cancel_and_await",
+                    "helper:on-cancel-exc", "helper:done-exception", "stop-during-run",
                     "stop-during-restart-delay", "stop-before-start", "stop-after-completion", "double-start",
                     "cancel-swallowed", "cancel-converted-to-exception", "extra-task", "service-multi-task",
                     "run-group", "restart-after-done"]
@@ -80,7 +81,13 @@ def gen(rng: Any, tier: str, i: int) -> Any:
             _EXH = _exhaustive_space()
         if i < len(_EXH):
             return _EXH[i]
-    kind = rng.choice(["actor"] * 6 + ["service", "group"])
+    kind = rng.choice(["actor"] * 12 + ["service", "group"] * 2 + ["helper"])
+    if kind == "helper":
+        # _internal/_asyncio.cancel_and_await on a bare task (what Resampler.stop(), FormulaEngine._stop() and the
+        # pools use to stop their tasks)
+        return {"kind": "helper", "state": rng.choice(["running", "running", "running", "done-result", "done-exception"]),
+                "on_cancel": rng.choice(["propagate", "exc", "exc-after-cleanup", "swallow", "base"]),
+                "cleanup": rng.choice([0.0, 0.5, 3.0])}
     if kind == "service":
         tasks = [{"d": rng.choice([0.0, 1.0, 3.0, 100.0]), "outcome": rng.choice(["ret", "exc", "exc2", "block", "base"]),
                   "on_cancel": rng.choice(["propagate", "propagate", "swallow", "exc"])} for _ in range(rng.randint(1, 4))]
@@ -560,9 +567,91 @@ def _judge_group(case: dict[str, Any], log: dict[str, Any], rec: Any) -> None:
     rec.observed({"returned_at": log["returned_at"], "last_exit": last_exit})
 
 
+class _HelperBoom(Exception):
+    pass
+
+
+class _HelperBase(BaseException):
+    pass
+
+
+async def _drive_helper(case: dict[str, Any], out: dict[str, Any]) -> None:
+    import asyncio
+
+    from frequenz.sdk._internal._asyncio import cancel_and_await
+
+    loop = asyncio.get_event_loop()
+
+    async def body() -> str:
+        if case["state"] == "done-result":
+            return "r"
+        if case["state"] == "done-exception":
+            raise _HelperBoom("already failed")
+        try:
+            await asyncio.sleep(1000)
+        except asyncio.CancelledError:
+            out["cancel_delivered_at"] = loop.time()
+            if case["on_cancel"] == "propagate":
+                raise
+            if case["cleanup"]:
+                await asyncio.sleep(case["cleanup"])
+            if case["on_cancel"] in ("exc", "exc-after-cleanup"):
+                raise _HelperBoom("clean-up failed") from None
+            if case["on_cancel"] == "base":
+                raise _HelperBase("clean-up failed badly") from None
+        return "swallowed"
+
+    task = asyncio.create_task(body())
+    await asyncio.sleep(0.25)
+    out["done_before"] = task.done()
+    out["called_at"] = loop.time()
+    try:
+        await cancel_and_await(task)
+        out["raised"] = None
+    except BaseException as e:  # pylint: disable=broad-except
+        out["raised"] = type(e).__name__
+    out["returned_at"] = loop.time()
+    out["done_after"] = task.done()
+    if not task.done():
+        task.cancel()
+    try:
+        await task
+    except BaseException:  # pylint: disable=broad-except
+        pass
+
+
+def _judge_helper(case: dict[str, Any], out: dict[str, Any], rec: Any) -> None:
+    rec.bucket("helper:cancel_and_await")
+    rec.bucket("helper:" + (case["state"] if case["state"] != "running" else "on-cancel-" + case["on_cancel"]))
+    w = {"case": case, "observed": out}
+    rec.nontrivial(case["state"] == "running")
+    rec.observed(out)
+    if not out.get("done_after"):
+        rec.violation("cancel_and_await-returned-before-the-task-finished", w)
+        return
+    if case["state"] != "running":
+        # documented: exits immediately if the task is already done
+        if out["returned_at"] != out["called_at"] or out["raised"] is not None:
+            rec.violation("cancel_and_await-on-a-finished-task-waited-or-raised", w)
+        return
+    cleanup = 0.0 if case["on_cancel"] == "propagate" else case["cleanup"]
+    if abs(out["returned_at"] - (out["called_at"] + cleanup)) > 1e-9:
+        rec.violation("cancel_and_await-did-not-return-when-the-task-finished", w)
+    expect = {"propagate": None, "swallow": None, "exc": "_HelperBoom", "exc-after-cleanup": "_HelperBoom",
+              "base": "_HelperBase"}[case["on_cancel"]]
+    if out["raised"] != expect:
+        rec.violation("cancel_and_await-does-not-surface-the-task's-non-cancellation-error"
+                      if expect else "cancel_and_await-raised-for-a-cleanly-cancelled-task", {**w, "expected": expect})
+
+
 def check(case: dict[str, Any], rec: Any) -> None:
     mon = LoopMonitor()
     rec.count("cases_run")
+    if case["kind"] == "helper":
+        hout: dict[str, Any] = {}
+        run_virtual(lambda: _drive_helper(case, hout), monitor=mon)
+        _judge_helper(case, hout, rec)
+        return
     if case["kind"] == "actor":
         log: list[Any] = []
         run_virtual(lambda: _drive_actor(case, log), monitor=mon)
